@@ -122,7 +122,7 @@ def r_whittaker(ctx: Ctx, model):
             kept = res["enthalpy_sorption"]
             if kept:
                 nkept += 1
-                verdict, wit = decide_zero(sp.simplify(kept[0] - want), symbols_domain={"nq": (sp.Rational(1, 10), sp.Rational(4, 10)), "n_m": (1, 2), "t": (sp.Rational(1, 2), sp.Rational(3, 2))})
+                verdict, wit = decide_zero(kept[0] - want, symbols_domain={"nq": (sp.Rational(1, 10), sp.Rational(4, 10)), "n_m": (1, 2), "t": (sp.Rational(1, 2), sp.Rational(3, 2))})
                 ctx.ob(verdict == "zero" and not skipped and res["loading"] == [nval],
                        Finding("C19.E-whittaker", fi.where, f"whittaker|{mname}|closed-form",
                                f"Whittaker enthalpy for a {mname} description is {sp.simplify(kept[0])}; the closed form is lambda + h_vap + RT with "
